@@ -29,6 +29,8 @@ fn main() {
         .unwrap_or(20261001);
     let workers = arg_val(&args, "--workers").and_then(|s| s.parse().ok()).unwrap_or(16usize);
     let opts = CheckOpts {
+        evidence_out: arg_val(&args, "--evidence-out"),
+        ovf_bin: arg_val(&args, "--ovf-bin"),
         tier: arg_val(&args, "--tier").unwrap_or_else(|| "quick".into()),
         seed,
         repo: arg_val(&args, "--repo").unwrap_or_else(|| "/repo".into()),
